@@ -100,6 +100,8 @@ type keptDecoded struct {
 	s    *bscript.BIP276
 	data []byte
 	text string
+	p    string
+	v, n int
 }
 
 var keptDec []keptDecoded
@@ -109,14 +111,14 @@ func decode(text string) (r decoded) {
 		s, err := bscript.DecodeBIP276(text)
 		// what earlier calls returned is still what it was
 		for _, k := range keptDec {
-			if !bytes.Equal(k.s.Data, k.data) {
-				violate("DecodeBIP276/earlier-result-changed-by-a-later-call", fmt.Sprintf("the data decoded from %q now reads %x after decoding %q", k.text, k.s.Data, text), fmt.Sprintf("%q", k.text))
+			if !bytes.Equal(k.s.Data, k.data) || k.s.Prefix != k.p || k.s.Version != k.v || k.s.Network != k.n {
+				violate("DecodeBIP276/earlier-result-changed-by-a-later-call", fmt.Sprintf("the value decoded from %q (prefix %q version %d network %d data %x) now reads prefix %q version %d network %d data %x after decoding %q", k.text, k.p, k.v, k.n, k.data, k.s.Prefix, k.s.Version, k.s.Network, k.s.Data, text), fmt.Sprintf("%q", k.text))
 				keptDec = nil
 				break
 			}
 		}
 		if err == nil && s != nil {
-			keptDec = append(keptDec, keptDecoded{s, append([]byte{}, s.Data...), text})
+			keptDec = append(keptDec, keptDecoded{s, append([]byte{}, s.Data...), text, s.Prefix, s.Version, s.Network})
 			if len(keptDec) > 5 {
 				keptDec = keptDec[1:]
 			}
@@ -502,6 +504,10 @@ func main() {
 		valCase("adversarial", t)
 	}
 
-	c.Stats.Rule = "Go side: all 65 025 (version, network) pairs (quick: prefix script/template and payload length {0,1,11,300} rotate with the pair; thorough: every pair x 2 prefixes x 4 lengths) with round-trip, layout and validate predicates; every payload length 0..700 x 2 prefixes; every single-byte substitution (all 255 other values), deletion and insertion at every position of ten valid encodings, every truncation of one; every single-byte substitution in the hex part of the ten encodings with the checksum recomputed over the text as written. Model side (cases counted here): 16x16 boundary field values + 1300 seeded random pairs (thorough: all pairs x 2 prefixes), payload lengths {0,1,11,300} x 2 prefixes and 59 further lengths (0..24, around 32/48/56/64/118/128/237/256/512), out-of-range fields {0,256,-1,257,-255,-256,2^31,-2^40,1000}, 18 unusual prefixes (colons, non-UTF-8, newline, empty), two substitutions + indels per position of the ten encodings, truncations, 40 hand-made adversarial texts (several colons, letter case, zero fields, odd data length). distinct = distinct (prefix,version,network,data) for encoder cases / distinct text for decoder and validate cases; non-trivial = encoder output is not ERROR / text has a colon and at least 14 characters"
+	// 7. state that outlives a call: sequential histories (A, B, A) and overlapping calls (concurrent.go)
+	histories(r)
+	concurrent(r)
+
+	c.Stats.Rule = "Go side: all 65 025 (version, network) pairs (quick: prefix script/template and payload length {0,1,11,300} rotate with the pair; thorough: every pair x 2 prefixes x 4 lengths) with round-trip, layout and validate predicates; every payload length 0..700 x 2 prefixes; every single-byte substitution (all 255 other values), deletion and insertion at every position of ten valid encodings, every truncation of one; every single-byte substitution in the hex part of the ten encodings with the checksum recomputed over the text as written. Model side (cases counted here): 16x16 boundary field values + 1300 seeded random pairs (thorough: all pairs x 2 prefixes), payload lengths {0,1,11,300} x 2 prefixes and 59 further lengths (0..24, around 32/48/56/64/118/128/237/256/512), out-of-range fields {0,256,-1,257,-255,-256,2^31,-2^40,1000}, 18 unusual prefixes (colons, non-UTF-8, newline, empty), two substitutions + indels per position of the ten encodings, truncations, 40 hand-made adversarial texts (several colons, letter case, zero fields, odd data length). distinct = distinct (prefix,version,network,data) for encoder cases / distinct text for decoder and validate cases; non-trivial = encoder output is not ERROR / text has a colon and at least 14 characters" + concurrencyRule
 	c.Finish()
 }
